@@ -256,10 +256,11 @@ HOSTS = ["example.com", "EXAMPLE.com.", "127.0.0.1", "[::1]", "[FE80::1%25eth0]"
          "256.1.1.1", "a..b", ".", "ex_ample", "0x7f.1", "[::ffff:1.2.3.4]", "[1:2:3:4:5:6:7:8]", "[1:2:3:4:5:6:7:8:9]",
          "[::1%25]", "[::1%25a%41]", "[::1%25a/b]", "[::1]x", "x[::1]", "[[::1]]", "例え.jp", "a․b", "ａ.com",
          "-a.com", "a" * 64 + ".com", "ß.de", "a‍.b", "[::1%eth0%25x]", "[A::B%25Zone]", "EXAMPLE.COM", "1.2.3", "[::]",
-         "\ud800.com", "a,b", "a;b", "a=b", "a~b", "a!b", "%", "%2e", "a%2Eb"]
+         "\ud800.com", "a,b", "a;b", "a=b", "a~b", "a!b", "%", "%2e", "a%2Eb", "example.com\n", "a\nb.com", "example.com\r",
+         "example.com\u2028", "[::1]\n"]
 PORTS = ["", "", ":", ":80", ":443", ":080", ":0", ":00000", ":65535", ":65536", ":99999", ":100000", ":4294967377",
          ":1" + "0" * 20, ":-1", ":+80", ":8o", ": 80", ":٨٠", ":８０", ":0000000000000000000080", ":8 0",
-         ":80:80", ":80@", ":0x50"]
+         ":80:80", ":80@", ":0x50", ":80\n", ":\n", ":80\r", ":80 ", ":80\x0b"]
 PATHS = ["", "", "/", "/a/../b", "/./a", "/..", "/a/.", "a/..", "/%2e%2e/", "/a%2fb", "/a b", "/é", "/%7e", "/%zz", "/%",
          "//x", "/\\x", "\\", "/a/../../..", "/.../", "/a;p", "/@", "/:", "/./", "/a/./b/../c", "/..a", "/a..", "/.a/..b/",
          "/%2E/", "/%C3%A9", "/%c3%a9", "/😀", "/a%", "/%4", "/%%41", "/[x]", "/{x}", "/a|b", "/a^b`c", "/\t", "/\n",
